@@ -236,7 +236,7 @@ class PredAbs:
     init    : formula assumed at entry
     """
 
-    def __init__(self, f, vocab, leaf, effects, init=T, track_bools=False, eh_after=False):
+    def __init__(self, f, vocab, leaf, effects, init=T, track_bools=False, eh_after=False, eh=True, eh_assume=None):
         self.f = f
         self.leaf = leaf
         self.effects = effects
@@ -258,7 +258,9 @@ class PredAbs:
                 self._leaf0, self._eff0 = leaf, effects
         self.v = vocab
         st0 = vocab.assume(vocab.full, init)
-        self.flow = Forward(f, st0, self._transfer, lambda a, b: a | b, edge=self._edge, eh_after=eh_after)
+        # eh_assume: formula assumed to hold whenever an exception edge is taken (e.g. "nothing throws after the hand-off")
+        flt = (lambda st, e: self.v.assume(st, eh_assume)) if eh_assume is not None else None
+        self.flow = Forward(f, st0, self._transfer, lambda a, b: a | b, edge=self._edge, eh_after=eh_after, eh=eh, eh_filter=flt)
 
     def _leaf_b(self, n):
         r = self._leaf0(n)
